@@ -40,7 +40,15 @@ func (c *Config) CountField(name string, opts ...Option) (int, error) {
 	}
 
 	if v, ok := c.fields.get(name); ok {
-		return v.Len(makeOptions(opts))
+		n, err := v.Len(makeOptions(opts))
+		if err != nil {
+			if _, ok := err.(Error); !ok {
+				ctx := v.Context()
+				err = raisePathErr(err, v.meta(), "", ctx.path("."))
+			}
+			return -1, err
+		}
+		return n, nil
 	}
 	return -1, raiseMissing(c, name)
 }
@@ -289,13 +297,9 @@ func (c *Config) setField(name string, idx int, v value, options []Option) Error
 	opts := makeOptions(options)
 	p := parsePathIdx(name, idx, opts)
 
-	err := p.SetValue(c, opts, v)
-	if err != nil {
-		return err
-	}
-
+	// (the namespaces created on the way take the metadata of the value)
 	if opts.meta != nil {
 		v.setMeta(opts.meta)
 	}
-	return nil
+	return p.SetValue(c, opts, v)
 }
